@@ -43,6 +43,8 @@ def gen_case(rng, i, tier):
             c["x"] = [[rng.uniform(0.05, 0.95) for _ in range(n - 2)] + [oldest + math.exp(rng.uniform(-2, 2))]]
         elif kind == "shift":
             c["x"] = [[math.exp(rng.uniform(-3, 1)) for _ in range(n - 1)]]
+            if rng.random() < 0.35:
+                c["smooth_k"] = rng.choice([0.5, 1.0, 3.0, 10.0])
         else:  # logdiff: rates of the 2n-2 non-root nodes, on a ratio-parameterised time tree
             c["kind_tree"] = "ratio"
             c["xtree"] = [[rng.uniform(0.05, 0.95) for _ in range(n - 2)] + [oldest + 1.0]]
@@ -85,6 +87,20 @@ def run_impl(c):
         cc = dict(c, kind=k)
         tm = c06.build(cc)
         tr = tm.transform
+        if k == "shift" and c.get("smooth_k"):
+            # the documented option k > 0 (smooth maximum): the model describes the hard maximum only, so this
+            # variant is judged by the property itself (inverse after forward, report = autograd log-det)
+            from torchtree.evolution.tree_height_transform import DifferenceNodeHeightTransform
+            tr = DifferenceNodeHeightTransform(tm, k=c["smooth_k"])
+            x = torch.tensor(c["x"][0])
+            y = tr(x)
+            out["y"] = y.tolist()
+            out["inv"] = tr.inv(y).tolist()
+            out["logdet"] = float(tr.log_abs_det_jacobian(x, y))
+            J = jacobian(lambda v: tr(v), x)
+            out["autograd"] = float(torch.linalg.slogdet(J)[1])
+            out["smooth"] = True
+            return out
         x = torch.tensor(c["x"][0])
         y = tr(x)
         out["y"] = y.tolist()
@@ -126,6 +142,36 @@ def run_impl(c):
     ld = tr.log_abs_det_jacobian(x, y)
     out["logdet_raw"] = ld.tolist() if ld.dim() else float(ld)
     out["logdet"] = float(ld.sum())
+    # the same transform on a batch [S, n] and [S, K, n]: every row must be what the row gives alone
+    rows = [x, x * 0.5 + (0.25 if k == "log" else 0.1), torch.flip(x, [-1])]
+    if k == "log":
+        rows = [r.abs() + 0.05 for r in rows]
+    bad = None
+    for X in (torch.stack(rows), torch.stack([torch.stack(rows), torch.stack(rows[::-1])])):
+        try:
+            Y = tr(X)
+            LD = tr.log_abs_det_jacobian(X, Y)
+            LD = LD.sum(-1) if LD.dim() == X.dim() else LD
+            INV = tr.inv(Y)
+            flatX = X.reshape(-1, X.shape[-1])
+            for r in range(flatX.shape[0]):
+                yr = tr(flatX[r])
+                ldr = tr.log_abs_det_jacobian(flatX[r], yr)
+                ldr = float(ldr.sum())
+                if not torch.allclose(Y.reshape(-1, X.shape[-1])[r], yr, rtol=1e-12, atol=1e-12):
+                    bad = f"row {r} of a batch {list(X.shape)}: forward differs from the row alone"
+                elif LD.numel() != flatX.shape[0] or abs(float(LD.reshape(-1)[r]) - ldr) > 1e-9 * max(1.0, abs(ldr)):
+                    bad = (f"row {r} of a batch {list(X.shape)}: reported log|det J| "
+                           f"{LD.reshape(-1).tolist()} but the row alone gives {ldr!r}")
+                elif not torch.allclose(INV.reshape(-1, X.shape[-1])[r], flatX[r], rtol=1e-9, atol=1e-9):
+                    bad = f"row {r} of a batch {list(X.shape)}: inverse(forward(x)) differs from x"
+                if bad:
+                    break
+        except Exception as e:  # noqa
+            bad = f"batch {list(X.shape)}: {type(e).__name__}: {str(e)[:120]}"
+        if bad:
+            break
+    out["batched_bad"] = bad
     J = jacobian(lambda v: tr(v), x)
     out["autograd"] = float(torch.linalg.slogdet(J)[1])
     if c.get("via_parameter"):
@@ -185,10 +231,14 @@ def property_on_impl(c, o):
     """reported log|det J| = slogdet of the autograd Jacobian of the forward map; inv(fwd(x)) = x."""
     k = c["kind"]
     x = c["x"][0] if k in ("ratio", "shift") else c["x"]
+    if c.get("smooth_k"):
+        k = "shift-smooth"
     if o.get("inv") is not None and k != "logdiff":
         for i, (a, b) in enumerate(zip(o["inv"], x)):
             if not (abs(a - b) <= 1e-8 * max(1.0, abs(b))):
                 return "inverse", f"inv(forward(x))[{i}] = {a!r} but x[{i}] = {b!r}"
+    if o.get("batched_bad"):
+        return "batched", o["batched_bad"]
     if o.get("logdet") is None or k == "trilexp":
         return None
     if not (abs(o["logdet"] - o["autograd"]) <= 1e-8 * max(1.0, abs(o["autograd"]))):
@@ -247,7 +297,8 @@ def run(tier, seed, replay=None):
         rep.violation(*f)
 
     t0 = time.time()
-    idx = [i for i, (c, o) in enumerate(zip(cases, outs)) if not isinstance(o, Exception) and c["kind"] != "trilexp"]
+    idx = [i for i, (c, o) in enumerate(zip(cases, outs)) if not isinstance(o, Exception) and c["kind"] != "trilexp"
+           and not c.get("smooth_k")]
     exprs = [coq_case(cases[i], outs[i]) for i in idx]
     res = C.run_cases(PID, HEADER, exprs, shard=max(4, len(exprs) // 16 + 1))
     rep.timings["model_eval"] = round(time.time() - t0, 2)
@@ -293,7 +344,7 @@ def run(tier, seed, replay=None):
     hrng = random.Random(seed + 17)
     nh, hist_found = 0, {}
     okc = [c for c, o in zip(cases, outs) if not isinstance(o, Exception)
-           and (c["kind"] in ("ratio", "shift") or c.get("via_parameter"))]
+           and (c["kind"] in ("ratio", "shift") or c.get("via_parameter")) and not c.get("smooth_k")]
     hrng.shuffle(okc)
     for c in okc[:(60 if tier == "quick" else 400)]:
         try:
